@@ -603,6 +603,37 @@ class Machine:
             if name == "then_some":
                 return some(args[0]) if recv else NONE
         if isinstance(recv, list):
+            if name == "insert" and len(args) == 1:
+                if args[0] in recv:
+                    return False
+                recv.append(args[0])
+                return True
+            if name == "remove" and len(args) == 1 and not isinstance(args[0], float):
+                if args[0] in recv:
+                    recv.remove(args[0])
+                    return True
+                return False
+            if name == "push" and len(args) == 1:
+                recv.append(args[0])
+                return None
+            if name == "extend" and len(args) == 1 and isinstance(args[0], list):
+                for x_ in args[0]:
+                    if x_ not in recv:
+                        recv.append(x_)
+                return None
+            if name == "retain" and len(args) == 1:
+                keep = [x_ for x_ in recv if truthy(self.apply(args[0], [x_]))]
+                recv[:] = keep
+                return None
+            if name == "for_each" and len(args) == 1:
+                for x_ in list(recv):
+                    self.apply(args[0], [x_])
+                return None
+            if name == "partition" and len(args) == 1:
+                a_, b_ = [], []
+                for x_ in recv:
+                    (a_ if truthy(self.apply(args[0], [x_])) else b_).append(x_)
+                return ("tup", [a_, b_])
             if name == "rev":
                 return list(reversed(recv))
             if name == "len":
@@ -654,7 +685,13 @@ class Machine:
                         else:
                             raise Unknown("collect into %s of %r" % (ok_tag, x))
                     return (ok_tag, out)
-                return recv
+                if "Set<" in ty_:
+                    out = []
+                    for x in recv:
+                        if x not in out:
+                            out.append(x)
+                    return out
+                return list(recv)
             if name == "contains":
                 return args[0] in recv
             if name == "position":
